@@ -102,5 +102,8 @@ func ToString(err *Error) string {
 }
 
 func space(l int) string {
+	if l < 0 {
+		return ""
+	}
 	return strings.Repeat(" ", l)
 }
